@@ -1412,6 +1412,19 @@ namespace
                     hyDefault.reset(new og::PathHybridization(w.si));
                     H = hyDefault.get();
                 }
+                // a hybridization object is reused (AnytimePathShortening, ParallelPlan do): after clear() the same path objects are
+                // recorded again and the claim is the same
+                const int hyRounds = rng.coin(0.4) ? 2 : 1;
+                for (int hyRound = 0; hyRound < hyRounds && !V.fired; ++hyRound)
+                {
+                if (hyRound > 0)
+                {
+                    H->clear();
+                    sink.count("c17_hybrid_rounds_after_clear");
+                    if (H->pathCount() != 0)
+                        V.viol("hybrid-clear", rn, objName[o.kind], J().str("what", "pathCount() != 0 after clear()").i("pathCount", (long long)H->pathCount()));
+                    if (rng.coin(0.5)) std::reverse(paths.begin(), paths.end());
+                }
                 double best = 0;
                 bool haveBest = false;
                 unsigned attempts = 0;
@@ -1429,7 +1442,7 @@ namespace
                 sink.count("c17_hybrid_paths_recorded", (long long)H->pathCount());
                 sink.count("c17_hybrid_connection_attempts", attempts);
                 J par;
-                par.str("objective", objName[o.kind]).i("paths", (long long)paths.size()).b("sameEnds", sameEnds);
+                par.str("objective", objName[o.kind]).i("paths", (long long)paths.size()).b("sameEnds", sameEnds).b("after_clear", hyRound > 0);
                 if (!hp || hp->getStateCount() == 0)
                     V.viol("hybrid-worse", rn, objName[o.kind], J().str("what", "no hybrid path").obj("params", par));
                 else
@@ -1458,6 +1471,7 @@ namespace
                     // statistics only (the statement does not name them for hybridization)
                     long dd = 0;
                     if (denseWorst(w, *hp, dd) > 2.0) sink.count("c17_stat_hybrid_invalid_stretch");
+                }
                 }
             }
             catch (BudgetExceeded &)
